@@ -78,6 +78,11 @@ func c03Creds() []c03Cred {
 		cs = append(cs, c03Cred{"rolecert-inside", a})  // the same from inside (IssuedAt = now)
 	}
 	cs = append(cs, c03Cred{"basic", 0})
+	// a session that gained a second factor long after the password login: the
+	// authentication the 24 h run from is the login, not the upgrade
+	for _, a := range []time.Duration{time.Hour, 10 * time.Hour, 16*time.Hour - time.Minute} {
+		cs = append(cs, c03Cred{"cookie-upgraded-late", a})
+	}
 	// an IP-restricted certificate issued by the operator's own client CA (client_ca_filename), not by this keymaster
 	cs = append(cs, c03Cred{"extca-rolecert-inside", 0}, c03Cred{"extca-rolecert-inside", 48 * time.Hour}, c03Cred{"extca-rolecert-outside", 0})
 	return cs
@@ -93,8 +98,10 @@ func c03World() *vfWorld {
 		users[k] = v
 	}
 	users[c03AutoUser] = "autobot-pw"
-	return vfNewWorld(vfOpts{CertBackends: []string{"password"}, WebUIBackends: []string{"password"}, Ed25519CA: true,
+	w := vfNewWorld(vfOpts{CertBackends: []string{"password"}, WebUIBackends: []string{"password"}, Ed25519CA: true, EnableTOTP: true,
 		AutomationUsers: []string{c03AutoUser}, AutomationAdmins: []string{"autoadmin"}, AdminUsers: []string{"admin"}, Users: users})
+	w.vfGiveTOTP("alice", 1)
+	return w
 }
 
 type c03Verdict struct {
@@ -164,6 +171,23 @@ func c03Run(w *vfWorld, p c03Point) c03Verdict {
 	case "cookie":
 		req.Cookies = []*http.Cookie{w.vfCookie(user, AuthTypePassword)}
 		authTime = t0
+	case "cookie-upgraded-late":
+		authTime = t0
+		ck := w.vfCookie(user, AuthTypePassword)
+		vclock.Advance(time.Duration(p.AgeS) * time.Second)
+		ur := w.Do(vfReq{Method: "POST", Path: totpAuthPath, Cookies: []*http.Cookie{ck}, Form: url.Values{"OTP": {vfTOTPCode(user, vclock.Now())}}}.Build())
+		up := ur.Cookie(authCookieName)
+		if up == nil {
+			return c03Verdict{Class: fmt.Sprintf("upgrade-refused-%d|%s", ur.Code, p.Cred)}
+		}
+		req.Cookies = []*http.Cookie{{Name: authCookieName, Value: up.Value}}
+		// let the TOTP bookkeeping of the next point start clean
+		pr := w.vfLoadProfile(user)
+		pr.LastSuccessfullTOTPCounter = 0
+		w.vfSaveProfile(user, pr)
+		w.state.totpLocalTateLimitMutex.Lock()
+		delete(w.state.totpLocalRateLimit, user)
+		w.state.totpLocalTateLimitMutex.Unlock()
 	case "basic":
 		req.HasBasic = true
 		req.Basic = [2]string{user, vfUsers[user]}
